@@ -33,10 +33,10 @@ PLAN = {
 
 
 PLAN.update({
-    "C07": {"quick": mon("c07", ("A",)),
+    "C07": {"quick": mon("c07", ("A", "B")),
             "thorough": mon("c07", ("A", "B")) + [{"monitor": "c07", "config": "A", "flavour": "asan", "args": []}]},
     "C08": {"quick": mon("c08", ("A", "B")), "thorough": mon("c08", ("A", "B"))},
-    "C12": {"quick": mon("c12", ("A",)), "thorough": mon("c12", ("A", "B"))},
+    "C12": {"quick": mon("c12", ("A", "B")), "thorough": mon("c12", ("A", "B"))},
     "C15": {"quick": mon("c15", ("A",)), "thorough": mon("c15", ("A",))},
     "C16": {"quick": mon("c16", ("A",)), "thorough": mon("c16", ("A", "B"))},
     "C17": {"quick": mon("c17", ("A", "B")), "thorough": mon("c17", ("A", "B"))},
@@ -44,7 +44,7 @@ PLAN.update({
         "quick": [hist("A", 800, 40), hist("B", 200, 20)] + mon("c10fp", ("A", "B")),
         "thorough": [hist("A", 16000, 420), hist("B", 16000, 420)] + mon("c10fp", ("A", "B")),
     },
-    "C14": {"quick": mon("c14", ("A",)),
+    "C14": {"quick": mon("c14", ("A", "B")),
             "thorough": mon("c14", ("A", "B")) + [{"monitor": "c14", "config": "A", "flavour": "asan", "args": ["--scratch", "/verif/.build/out/c14-asan"]},
                                                   {"kind": "script", "script": "lib/valgrind_c14.sh", "config": "A", "timeout": 3000}]},
     "C19": {
